@@ -3,6 +3,9 @@
 import json, sys
 
 CHECKS = {
+ "C11": dict(cat="exploration", tech="proptest-generated layer trees (modes, every symlink kind, symlinked layer path) deleted through three public routes in a fresh worker process running unprivileged (uid 65534) and as root; lstat snapshot differential of everything outside the layer",
+   text="Each generated scenario (layer tree + canary tree + sibling layers incl. prefix-sharing names) is built on disk, chowned, and one deletion route is executed in a worker that has dropped to an unprivileged uid so that permission bits bind; everything outside <layers>/<name>, <name>.toml and <name>.sbom.* must be bit-identical (content, mode, link target) afterwards, and after success the layer must be a real empty directory with no old entry.",
+   note="A regular file at the layer path is not generated; errors are acceptable outcomes as long as nothing outside changed, except that a failure of the deletion itself on a real directory owned by the caller is a violation. Trusted: Linux/tmpfs permission semantics."),
  "C01": dict(cat="exploration", tech="model-based testing of operation histories: bounded-exhaustive enumeration (length <= 3 over a reduced alphabet, plus all request/write/restore/request patterns) and proptest-generated longer histories, interpreted against a real BuildContext and a reference layer model compared after every step (files bytewise, TOML via Python tomllib, callback invocation log)",
    text="Sequences of cached/uncached layer requests (all IntoAction shapes, three metadata types, every callback decision incl. errors), writes through LayerRef and simulated lifecycle restores are executed on a real layers directory; after every step the reported state, the callback log, this layer's directory/TOML/SBOMs and the byte-identity of all other layers are compared with a reference model.",
    note="The lifecycle restore is the abstraction given in the property's quantifier, applied by the harness; malformed TOML / hand-edited env directories are not generated; trusted: reference model (layermodel.rs), Python tomllib."),
